@@ -25,7 +25,14 @@ use serde::{Deserialize, Serialize};
 use serde_json::json;
 use vh::{jumbf_walk as jw, rng::SplitMix64, sdk, CaseResult, Fail, Run};
 
-const STATES: [&str; 7] = ["signed", "tampered", "unsigned", "chain", "chain-tampered-inner", "conflict", "store-tampered"];
+const STATES: [&str; 13] = [
+    "signed", "tampered", "unsigned", "chain", "chain-tampered-inner", "conflict", "store-tampered",
+    // chains whose inner link is a legacy `c2pa_manifest` reference of a claim-v1 manifest
+    "chain-v1", "fixture:CACA.jpg", "fixture:CACAE-uri-CA.jpg", "fixture:CIE-sig-CA.jpg", "fixture:CA.jpg", "fixture:C.jpg",
+];
+const ROUTES: [&str; 4] = ["stream", "ingredient-archive", "builder-archive", "into-builder"];
+/// `format` member of the ingredient JSON: absent, the stream's type, another supported type, a type without handler (x2)
+const DECLS: [&str; 5] = ["absent", "matching", "other-supported", "image/vnd.adobe.photoshop", "application/x-verif-unknown"];
 const RELS: [&str; 3] = ["parentOf", "componentOf", "inputTo"];
 const PARENTS: [&str; 3] = ["png", "jpeg", "mp4"];
 const TITLE: &str = "c39 ingredient";
@@ -36,9 +43,13 @@ struct Case {
     aseed: u16,
     state: u8,
     rel: u8,
-    archive: bool,
+    /// index into ROUTES
+    route: u8,
     parent: u8,
     tamper_sel: u32,
+    /// index into DECLS
+    #[serde(default)]
+    decl: u8,
 }
 
 fn is_bmff(kind: &str) -> bool {
@@ -193,9 +204,17 @@ fn manifest_boxes(store: &[u8]) -> Result<Vec<(String, Vec<u8>, Vec<u8>)>, Strin
     Ok(out)
 }
 
-fn sign_with_ingredients(fmt: &str, src: &[u8], title: &str, intent: BuilderIntent, ings: &[(String, String, Vec<u8>)]) -> c2pa::Result<Vec<u8>> {
-    let mut b = Builder::from_context(sdk::context()).with_definition(sdk::simple_definition(title).to_string())?;
-    b.set_intent(intent);
+fn sign_with_ingredients(fmt: &str, src: &[u8], title: &str, intent: Option<BuilderIntent>, ings: &[(String, String, Vec<u8>)]) -> c2pa::Result<Vec<u8>> {
+    let mut def = sdk::simple_definition(title);
+    if intent.is_none() {
+        // claim version 1: ingredient assertions are v2 and reference their manifest through `c2pa_manifest`
+        def["claim_version"] = json!(1);
+        def["claim_generator"] = json!("verif-harness/0.1");
+    }
+    let mut b = Builder::from_context(sdk::context()).with_definition(def.to_string())?;
+    if let Some(i) = intent {
+        b.set_intent(i);
+    }
     for (j, f, bytes) in ings {
         b.add_ingredient_from_stream(j.clone(), f, &mut Cursor::new(bytes.clone()))?;
     }
@@ -269,15 +288,20 @@ fn compare(run: &Run, place: &str, st: &str, alone: &Option<Alone>, snap: &Snaps
 }
 
 fn judge(run: &Run, c: &Case) -> CaseResult {
-    let kind = vh::assets::KINDS[c.kind as usize % vh::assets::KINDS.len()];
     let st = STATES[c.state as usize % STATES.len()];
+    let fixture = st.strip_prefix("fixture:");
+    let kind = if fixture.is_some() { "jpeg" } else { vh::assets::KINDS[c.kind as usize % vh::assets::KINDS.len()] };
     let rel = RELS[c.rel as usize % RELS.len()];
+    let route = ROUTES[c.route as usize % ROUTES.len()];
+    let decl = DECLS[c.decl as usize % DECLS.len()];
     let pkind = PARENTS[c.parent as usize % PARENTS.len()];
     let base = synth(kind, 0xC39 ^ ((c.aseed as u64) << 10) ^ c.kind as u64);
     let fmt = base.format;
+    let v1 = st == "chain-v1";
     run.count(&format!("kind_{kind}"));
-    run.count(&format!("state_{st}:{}", if c.archive { "archive" } else { "stream" }));
+    run.count(&format!("state_{st}:{route}"));
     run.count(&format!("rel_{rel}"));
+    run.count(&format!("declared_format_{decl}"));
 
     // ---- build the ingredient asset(s) ----
     let reject = |why: String| {
@@ -287,6 +311,7 @@ fn judge(run: &Run, c: &Case) -> CaseResult {
     let signed = |src: &[u8], title: &str| vh::catch(|| sdk::sign_simple(fmt, src, title)).map_err(|p| p).and_then(|r| r.map_err(|e| e.to_string()));
     let mut assets: Vec<Vec<u8>> = vec![];
     match st {
+        _ if fixture.is_some() => assets.push(sdk::fixture(fixture.unwrap())),
         "unsigned" => assets.push(base.bytes.clone()),
         "signed" | "tampered" | "conflict" | "store-tampered" => {
             let s = match signed(&base.bytes, "c39 source") {
@@ -323,7 +348,7 @@ fn judge(run: &Run, c: &Case) -> CaseResult {
         }
         _ => {
             let inner_src = synth("png", 0x1AA ^ c.aseed as u64);
-            let mut inner = match vh::catch(|| sdk::sign_simple(inner_src.format, &inner_src.bytes, "c39 inner")) {
+            let mut inner = match vh::catch(|| if v1 { sign_with_ingredients(inner_src.format, &inner_src.bytes, "c39 inner v1", None, &[]) } else { sdk::sign_simple(inner_src.format, &inner_src.bytes, "c39 inner") }) {
                 Ok(Ok(b)) => b,
                 _ => {
                     reject("inner sign".into());
@@ -337,7 +362,7 @@ fn judge(run: &Run, c: &Case) -> CaseResult {
                 }
             }
             let ij = json!({"title": "inner", "relationship": "componentOf"}).to_string();
-            match vh::catch(|| sign_with_ingredients(fmt, &base.bytes, "c39 chain", BuilderIntent::Create(DigitalSourceType::Empty), &[(ij.clone(), inner_src.format.to_string(), inner.clone())])) {
+            match vh::catch(|| sign_with_ingredients(fmt, &base.bytes, "c39 chain", if v1 { None } else { Some(BuilderIntent::Create(DigitalSourceType::Empty)) }, &[(ij.clone(), inner_src.format.to_string(), inner.clone())])) {
                 Ok(Ok(b)) => assets.push(b),
                 other => {
                     reject(format!("chain sign: {:?}", other.map(|r| r.map(|_| ()).map_err(|e| e.to_string()))));
@@ -368,7 +393,7 @@ fn judge(run: &Run, c: &Case) -> CaseResult {
                 // recorded only: what happens when such an asset is used as an ingredient
                 let ij = json!({"title": TITLE, "relationship": "componentOf"}).to_string();
                 let psrc = synth("png", 0x9A7 ^ ((c.aseed as u64) << 3));
-                let r = vh::catch(|| sign_with_ingredients(psrc.format, &psrc.bytes, "c39 parent", BuilderIntent::Create(DigitalSourceType::Empty), &[(ij.clone(), fmt.to_string(), a.clone())]));
+                let r = vh::catch(|| sign_with_ingredients(psrc.format, &psrc.bytes, "c39 parent", Some(BuilderIntent::Create(DigitalSourceType::Empty)), &[(ij.clone(), fmt.to_string(), a.clone())]));
                 let outcome = match r {
                     Ok(Ok(b)) => format!("signed, parent reads {}", sdk::read(psrc.format, &b).map(|r| sdk::state_name(r.validation_state())).unwrap_or("Err")),
                     Ok(Err(e2)) => format!("refused: {}", e2.to_string().chars().take(60).collect::<String>()),
@@ -390,31 +415,39 @@ fn judge(run: &Run, c: &Case) -> CaseResult {
     if let Some(Some(a)) = alone.last() {
         run.count(&format!("alone_{}_{}", st, a.state));
     }
-    if st != "signed" && st != "unsigned" {
-        run.nontrivial(c);
-    } else if c.archive {
+    if (st != "signed" && st != "unsigned") || route != "stream" || c.decl % 5 >= 2 {
         run.nontrivial(c);
     }
+    // "intact" = reading every ingredient asset alone gives Valid/Trusted (or it is unsigned)
+    let intact = alone.iter().all(|a| a.as_ref().map(|a| a.state != "Invalid").unwrap_or(true));
 
     // ---- (2) parent ----
     let psrc = synth(pkind, 0x9A7 ^ ((c.aseed as u64) << 3));
     let pfmt = psrc.format;
     let mut settings = sdk::base_settings(true);
     sdk::merge(&mut settings, &json!({"builder": {"generate_c2pa_archive": true}}));
+    let intent = || if rel == "parentOf" { BuilderIntent::Edit } else { BuilderIntent::Create(DigitalSourceType::Empty) };
     let mk = || -> c2pa::Result<Builder> {
         let mut b = Builder::from_context(sdk::context_with(&settings)).with_definition(sdk::simple_definition("c39 parent").to_string())?;
-        b.set_intent(if rel == "parentOf" { BuilderIntent::Edit } else { BuilderIntent::Create(DigitalSourceType::Empty) });
+        b.set_intent(intent());
         Ok(b)
     };
+    let what = format!("parent ({pkind}) with {kind} ingredient ({st}, {rel}, route {route}, declared format {decl})");
     let mut parent = mk().map_err(|e| Fail::new("C39:harness-builder", e.to_string()))?;
-    let n = assets.len();
     for (k, a) in assets.iter().enumerate() {
         // only one parentOf ingredient is allowed: the second ingredient of the conflict pair is a component
         let r = if k == 0 { rel } else if rel == "componentOf" { "inputTo" } else { "componentOf" };
         let title = format!("{TITLE} {k}");
-        let ij = json!({"title": title, "relationship": r, "label": format!("c39_ing_{k}")}).to_string();
-        let place = if c.archive { "at-add-from-archive" } else { "at-add" };
-        let snap = if c.archive {
+        let mut ijv = json!({"title": title, "relationship": r, "label": format!("c39_ing_{k}")});
+        match decl {
+            "absent" => {}
+            "matching" => ijv["format"] = json!(fmt),
+            "other-supported" => ijv["format"] = json!(if fmt == "image/png" { "image/jpeg" } else { "image/png" }),
+            other => ijv["format"] = json!(other),
+        }
+        let ij = ijv.to_string();
+        let place = if route == "ingredient-archive" { "at-add-from-archive" } else { "at-add" };
+        let snap = if route == "ingredient-archive" {
             let mut host = mk().map_err(|e| Fail::new("C39:harness-builder", e.to_string()))?;
             host.set_intent(BuilderIntent::Create(DigitalSourceType::Empty));
             if let Err(e) = host.add_ingredient_from_stream(ij.clone(), fmt, &mut Cursor::new(a.clone())) {
@@ -424,52 +457,114 @@ fn judge(run: &Run, c: &Case) -> CaseResult {
             match vh::catch(|| host.write_ingredient_archive(&format!("c39_ing_{k}"), &mut ar)) {
                 Ok(Ok(())) => {}
                 other => {
+                    let msg = format!("{:?}", other.map(|r| r.map_err(|e| e.to_string())));
+                    if intact {
+                        return Err(Fail::new(format!("C39:ingredient-archive-write-error:{}", st.split(':').next().unwrap_or(st)), format!("{what}: write_ingredient_archive failed: {msg}")));
+                    }
                     run.count("archive_write_failed");
-                    run.note(format!("write_ingredient_archive failed for {kind}/{st}: {:?}", other.map(|r| r.map_err(|e| e.to_string()))));
+                    run.note(format!("write_ingredient_archive failed for {kind}/{st}: {msg}"));
                     return Ok(());
                 }
             }
             match vh::catch(|| parent.add_ingredient_from_archive(&mut Cursor::new(ar.into_inner())).map(|i| snapshot(i))) {
                 Ok(Ok(s)) => s,
                 other => {
+                    let msg = format!("{:?}", other.map(|r| r.map(|_| ()).map_err(|e| e.to_string())));
+                    if intact {
+                        return Err(Fail::new(format!("C39:ingredient-archive-add-error:{}", st.split(':').next().unwrap_or(st)), format!("{what}: add_ingredient_from_archive failed: {msg}")));
+                    }
                     run.count("archive_add_failed");
-                    run.note(format!("add_ingredient_from_archive failed for {kind}/{st}: {:?}", other.map(|r| r.map(|_| ()).map_err(|e| e.to_string()))));
+                    run.note(format!("add_ingredient_from_archive failed for {kind}/{st}: {msg}"));
                     return Ok(());
                 }
             }
         } else {
             match vh::catch(|| parent.add_ingredient_from_stream(ij.clone(), fmt, &mut Cursor::new(a.clone())).map(|i| snapshot(i))) {
                 Ok(Ok(s)) => s,
-                Ok(Err(e)) => return Err(Fail::new(format!("C39:add-ingredient-error:{st}"), format!("add_ingredient_from_stream({kind}, {st}, {r}): {e}"))),
+                Ok(Err(e)) => return Err(Fail::new(format!("C39:add-ingredient-error:{st}"), format!("add_ingredient_from_stream({kind}, {st}, {r}, declared format {decl}): {e}"))),
                 Err(p) => return Err(Fail::new(format!("C39:add-ingredient-panic:{}", vh::core::panic_site(&p)), p)),
             }
         };
+        let mut snap = snap;
+        if std::env::var("VERIF_SELFTEST").ok().as_deref() == Some("declfmt") && c.decl % 5 >= 2 {
+            // sensitivity self-test: a mismatching declared format makes the SDK record the asset like an unsigned one
+            snap = Snapshot { active: None, state: None, failures: vec![], has_results: false, has_manifest_data: false, status_failures: 0 };
+        }
         // the label is only re-assigned when the claim is built, so no relabel is expected here
         compare(run, place, st, &alone[k], &snap, false)?;
-        let _ = n;
+    }
+    let stclass = st.split(':').next().unwrap_or(st);
+    if route == "builder-archive" {
+        // to_archive -> with_archive: the working store round trip of the whole builder
+        let mut ar = Cursor::new(Vec::new());
+        let restored = vh::catch(|| -> c2pa::Result<Builder> {
+            parent.to_archive(&mut ar)?;
+            ar.set_position(0);
+            let mut b = Builder::from_context(sdk::context_with(&settings)).with_archive(&mut ar)?;
+            b.set_intent(intent());
+            Ok(b)
+        });
+        match restored {
+            Ok(Ok(b)) => parent = b,
+            other => {
+                let msg = format!("{:?}", other.map(|r| r.map(|_| ()).map_err(|e| e.to_string())));
+                if intact {
+                    return Err(Fail::new(format!("C39:builder-archive-error:{stclass}"), format!("{what}: to_archive/with_archive failed: {msg}")));
+                }
+                run.count(&format!("builder_archive_refused_{stclass}"));
+                return Ok(());
+            }
+        }
     }
     let signer = sdk::signer("ed25519");
-    let mut s = Cursor::new(psrc.bytes.clone());
-    let mut d = Cursor::new(Vec::new());
-    let out = match vh::catch(|| parent.sign(signer.as_ref(), pfmt, &mut s, &mut d)) {
-        Ok(Ok(_)) => d.into_inner(),
+    let sign_it = |b: &mut Builder| -> Result<c2pa::Result<Vec<u8>>, String> {
+        vh::catch(|| {
+            let mut s = Cursor::new(psrc.bytes.clone());
+            let mut d = Cursor::new(Vec::new());
+            b.sign(signer.as_ref(), pfmt, &mut s, &mut d).map(|_| d.into_inner())
+        })
+    };
+    let mut out = match sign_it(&mut parent) {
+        Ok(Ok(b)) => b,
         Ok(Err(e)) => {
             // signing a parent with a broken ingredient may legitimately be refused; with an intact one it may not
-            if st == "signed" || st == "unsigned" || st == "chain" {
-                return Err(Fail::new(format!("C39:parent-sign-error:{st}"), format!("parent ({pkind}) with {kind} ingredient ({st}, {rel}, archive={}): {e}", c.archive)));
-            }
             if st == "conflict" && e.to_string().contains("ingredient label malformed") {
                 return Err(Fail::new(
                     "C39:conflict-relabel-refused:ingredient-label-malformed",
                     format!("two ingredients ({kind}; intact copy + copy with one changed byte in an assertion payload of its store, same manifest label) cannot be combined: Builder::sign fails with '{e}' instead of relabelling the conflicting manifest"),
                 ));
             }
-            run.count(&format!("parent_sign_refused_{st}"));
-            run.note(format!("parent sign refused ({kind}, {st}, {rel}, archive={}): {}", c.archive, e.to_string().chars().take(300).collect::<String>()));
+            if intact {
+                return Err(Fail::new(format!("C39:parent-sign-error:{stclass}:{route}"), format!("{what}: {e}")));
+            }
+            run.count(&format!("parent_sign_refused_{stclass}"));
+            run.note(format!("parent sign refused ({what}): {}", e.to_string().chars().take(300).collect::<String>()));
             return Ok(());
         }
         Err(p) => return Err(Fail::new(format!("C39:parent-sign-panic:{}", vh::core::panic_site(&p)), p)),
     };
+    if route == "into-builder" {
+        // Reader::into_builder: rebuild a builder from the signed parent and sign again
+        let again = vh::catch(|| -> c2pa::Result<Vec<u8>> {
+            let r = sdk::read_with(sdk::context_with(&settings), pfmt, &out)?;
+            let mut b = r.into_builder()?;
+            let mut s = Cursor::new(psrc.bytes.clone());
+            let mut d = Cursor::new(Vec::new());
+            b.sign(signer.as_ref(), pfmt, &mut s, &mut d)?;
+            Ok(d.into_inner())
+        });
+        match again {
+            Ok(Ok(b)) => out = b,
+            other => {
+                let msg = format!("{:?}", other.map(|r| r.map(|_| ()).map_err(|e| e.to_string())));
+                if intact {
+                    return Err(Fail::new(format!("C39:into-builder-error:{stclass}"), format!("{what}: Reader::into_builder + sign failed: {msg}")));
+                }
+                run.count(&format!("into_builder_refused_{stclass}"));
+                return Ok(());
+            }
+        }
+    }
 
     // ---- (3) read back ----
     let pr = match vh::catch(|| sdk::read(pfmt, &out)) {
@@ -478,15 +573,28 @@ fn judge(run: &Run, c: &Case) -> CaseResult {
     };
     let pstate = sdk::state_name(pr.validation_state());
     run.count(&format!("parent_state_with_{st}_ingredient:{pstate}"));
-    if (st == "signed" || st == "unsigned" || st == "chain") && !sdk::is_valid_or_trusted(&pr) {
+    run.count(&format!("route_{route}_completed"));
+    let restore_route = route == "builder-archive" || route == "into-builder";
+    let pcodes = sdk::failure_codes(&pr);
+    if intact && !sdk::is_valid_or_trusted(&pr) && restore_route && !pcodes.iter().any(|c| c.starts_with("ingredient.") || c.starts_with("assertion.ingredient")) {
+        // Round-trip defects of the restored builder that do not concern the ingredient (C22's subject): recorded.
+        run.count(&format!("restore_route_parent_invalid_for_non_ingredient_reason:{route}:{pkind}:{}", pcodes.first().cloned().unwrap_or_default()));
+        run.note(format!("{what} reads {pstate}: {pcodes:?} (not an ingredient failure; recorded only)"));
+    } else if intact && !sdk::is_valid_or_trusted(&pr) {
         return Err(Fail::new(
-            format!("C39:parent-not-valid:{st}:{}", sdk::failure_codes(&pr).first().cloned().unwrap_or_default()),
-            format!("parent ({pkind}) with {kind} ingredient ({st}, {rel}, archive={}) reads {pstate}: {:?}", c.archive, sdk::failure_codes(&pr)),
+            format!("C39:parent-not-valid:{stclass}:{route}:{}", sdk::failure_codes(&pr).first().cloned().unwrap_or_default()),
+            format!("{what} reads {pstate}: {:?}", sdk::failure_codes(&pr)),
         ));
     }
     let pm = pr.active_manifest().ok_or_else(|| Fail::new("C39:parent-no-active-manifest", "no active manifest"))?;
     let pstore = sdk::store_of(pfmt, &out).map_err(|e| Fail::new("C39:harness-store", e.to_string()))?;
-    let pboxes = manifest_boxes(&pstore).map_err(|e| Fail::new("C39:harness-walker", e))?;
+    let mut pboxes = manifest_boxes(&pstore).map_err(|e| Fail::new("C39:harness-walker", e))?;
+    if std::env::var("VERIF_SELFTEST").ok().as_deref() == Some("dropinner") && route != "stream" {
+        // sensitivity self-test: manifests that are not directly referenced by the parent are lost on the restore routes
+        let direct: Vec<String> = pm.ingredients().iter().filter_map(|i| i.active_manifest().map(|s| s.to_string())).collect();
+        let active = pr.active_label().unwrap_or("").to_string();
+        pboxes.retain(|p| p.0 == active || direct.contains(&p.0));
+    }
     let selftest = std::env::var("VERIF_SELFTEST").ok();
     for k in 0..assets.len() {
         let title = format!("{TITLE} {k}");
@@ -559,33 +667,75 @@ fn judge(run: &Run, c: &Case) -> CaseResult {
 fn main() {
     vh::quiet_panics();
     let run = Run::from_args("C39", "exploration");
-    run.set_rule("case = (ingredient container: every synthesised kind of vh::assets (16), seed, state signed/tampered/unsigned/chain/chain with tampered inner ingredient/conflict pair, relationship parentOf/componentOf/inputTo, route add_ingredient_from_stream or write_ingredient_archive -> add_ingredient_from_archive, parent container png/jpeg/mp4). Enumeration: every kind x {signed, tampered, unsigned} and every state x relationship x route on png/jpeg/mp4; then random cases. Non-trivial = tampered, chained or conflicting ingredient, or the archive route.");
+    run.set_rule("case = (ingredient container: every synthesised kind of vh::assets (16), seed, state signed/tampered/unsigned/chain/chain with tampered inner ingredient/conflict pair, relationship parentOf/componentOf/inputTo, claim-v1 chain signed by the harness / fixtures CACA.jpg, CACAE-uri-CA.jpg, CIE-sig-CA.jpg, CA.jpg, C.jpg, relationship parentOf/componentOf/inputTo, route add_ingredient_from_stream | write_ingredient_archive -> add_ingredient_from_archive | to_archive -> with_archive | sign -> Reader::into_builder -> sign, declared `format` of the ingredient JSON absent/matching/other supported/without handler, parent container png/jpeg/mp4). Enumeration: every kind x {signed, tampered, unsigned}; every state x relationship x {stream, ingredient archive} on png/jpeg/mp4; v1 chains and fixtures x every route x relationship; restore routes x 5 states; declared format x 5 states x 6 kinds; then random cases. Non-trivial = anything but a plain signed/unsigned asset added directly with absent/matching format.");
     run.assume("reading the ingredient alone and adding it use the same settings (fixture trust anchors, no network, thumbnails off); tampered = one bit of a protected media byte (outside the manifest container located by the independent walker; mdat payload for BMFF) such that reading alone is Invalid, other tamper outcomes are skipped and counted");
     run.assume("for the conflict pair the second copy may be relabelled <label>:<n>_<reason>; then its content boxes (everything after the description box) must be byte-identical");
 
     let mut cases = vec![];
     let nk = vh::assets::KINDS.len() as u8;
+    let sd = run.seed as u16;
     for k in 0..nk {
         for state in [0u8, 1, 2] {
-            cases.push(Case { kind: k, aseed: (run.seed as u16).wrapping_add(k as u16 * 13 + state as u16), state, rel: (k + state) % 3, archive: false, parent: k % 3, tamper_sel: 4711 + k as u32 * 97 });
+            cases.push(Case { kind: k, aseed: sd.wrapping_add(k as u16 * 13 + state as u16), state, rel: (k + state) % 3, route: 0, parent: k % 3, tamper_sel: 4711 + k as u32 * 97, decl: (k + state) % 2 });
         }
     }
     for (ki, k) in [1u8, 0, 11].iter().enumerate() {
         for state in 0..7u8 {
             for rel in 0..3u8 {
-                for archive in [false, true] {
+                for route in [0u8, 1] {
                     if run.quick() && (ki as u8 + state + rel) % 2 == 1 {
                         continue;
                     }
-                    cases.push(Case { kind: *k, aseed: (run.seed as u16) ^ (0x3900 + state as u16 * 16 + rel as u16), state, rel, archive, parent: (state + rel) % 3, tamper_sel: 999 + state as u32 * 31 });
+                    cases.push(Case { kind: *k, aseed: sd ^ (0x3900 + state as u16 * 16 + rel as u16), state, rel, route, parent: (state + rel) % 3, tamper_sel: 999 + state as u32 * 31, decl: 0 });
                 }
+            }
+        }
+    }
+    // chains with claim-v1 inner links (own v1 chain + repository fixtures) through every route
+    for state in 7..STATES.len() as u8 {
+        for route in 0..ROUTES.len() as u8 {
+            for rel in 0..3u8 {
+                if run.quick() && state >= 8 && (state + route + rel) % 3 != 0 {
+                    continue;
+                }
+                cases.push(Case { kind: [1u8, 0, 11][(rel as usize + route as usize) % 3], aseed: sd ^ (0x7100 + state as u16 * 16 + route as u16 * 4 + rel as u16), state, rel, route, parent: (state + route) % 3, tamper_sel: 5, decl: 0 });
+            }
+        }
+    }
+    // v2 chains and plain signed / tampered / unsigned assets through the restore routes
+    for state in [0u8, 1, 2, 3, 4] {
+        for route in [2u8, 3] {
+            for (ki, k) in [1u8, 0, 11].iter().enumerate() {
+                cases.push(Case { kind: *k, aseed: sd ^ (0x7800 + state as u16 * 16 + route as u16 * 4 + ki as u16), state, rel: (state + route + ki as u8) % 3, route, parent: (ki as u8 + state) % 3, tamper_sel: 77 + ki as u32, decl: 0 });
+            }
+        }
+    }
+    // declared `format` in the ingredient JSON: absent / matching / other supported / without handler
+    for decl in 0..DECLS.len() as u8 {
+        for state in [0u8, 1, 2, 3, 6] {
+            for (ki, k) in [0u8, 1, 2, 11, 6, 7].iter().enumerate() {
+                if run.quick() && (decl as usize + state as usize + ki) % 2 == 1 {
+                    continue;
+                }
+                cases.push(Case { kind: *k, aseed: sd ^ (0x7D00 + decl as u16 * 64 + state as u16 * 8 + ki as u16), state, rel: (decl + state + ki as u8) % 3, route: if (decl as usize + ki) % 4 == 3 { 1 } else { 0 }, parent: (ki as u8) % 3, tamper_sel: 31 + ki as u32 * 7, decl });
             }
         }
     }
     let threads = if run.quick() { 6 } else { 12 };
     run.drive_enum_par("enumerated", cases, threads, |c| judge(&run, c));
 
-    let strat = (0..nk, any::<u16>(), 0u8..7, 0u8..3, any::<bool>(), 0u8..3, any::<u32>()).prop_map(|(kind, aseed, state, rel, archive, parent, tamper_sel)| Case { kind, aseed, state, rel, archive, parent, tamper_sel });
-    run.drive_par("random", run.scale(120, 2900), threads, strat, |c| judge(&run, c));
+    let ns = STATES.len() as u8;
+    let strat = (0..nk, any::<u16>(), 0..ns, 0u8..3, 0u8..4, 0u8..3, any::<u32>(), 0u8..10).prop_map(|(kind, aseed, state, rel, route, parent, tamper_sel, decl)| Case {
+        kind,
+        aseed,
+        state,
+        rel,
+        route,
+        parent,
+        tamper_sel,
+        // half of the cases leave the declared format out
+        decl: if decl < 5 { 0 } else { decl - 5 },
+    });
+    run.drive_par("random", run.scale(150, 3500), threads, strat, |c| judge(&run, c));
     run.finish();
 }
